@@ -10,12 +10,12 @@ import (
 
 func Configs(c *common.Ctx) []hist.Config {
 	cfgs := []hist.Config{
-		{PageSize: 512, Regime: 0, AllowWAL: true, AllowDrop: true},
+		{PageSize: 512, Regime: 0, AllowWAL: true, AllowDrop: true, Clients: true},
 		{PageSize: 512, Regime: 1, AllowWAL: true, AllowDrop: true},
-		{PageSize: 512, Regime: 1, AllowWAL: false, AllowDrop: false, CommitFaults: true},
+		{PageSize: 512, Regime: 1, AllowWAL: false, AllowDrop: false, CommitFaults: true, Clients: true},
 		{PageSize: 512, Regime: 2, AllowWAL: true, AllowDrop: false, BigEndian: true},
 		{PageSize: 4096, Regime: 0, AllowWAL: true, AllowDrop: true, CommitFaults: true},
-		{PageSize: 1024, Regime: 1, AllowWAL: true, AllowDrop: true, BigEndian: true},
+		{PageSize: 1024, Regime: 1, AllowWAL: true, AllowDrop: true, BigEndian: true, Clients: true},
 	}
 	if c.Thorough() {
 		cfgs = append(cfgs, hist.Config{PageSize: 2048, Regime: 2, AllowWAL: true, AllowDrop: true},
